@@ -1,7 +1,7 @@
 #!/usr/bin/env python3
 """Writes coq/_CoqProject from the files present (Gen, Model, Proofs, Harness, Props)."""
 import glob, os
-COQ = os.path.join(os.path.dirname(os.path.dirname(os.path.abspath(__file__))), "coq")
+COQ = os.environ.get("VERIF_COQ_DIR") or os.path.join(os.path.dirname(os.path.dirname(os.path.abspath(__file__))), "coq")
 
 
 def write():
